@@ -1050,6 +1050,10 @@ static void complete(CbCtx *c, int status, int timeouts, const std::string &res)
     for (int id : pending)
       if (w->toks[(size_t)id].count == 0 && !nested)
         w->violate("C01:token:not-completed-by-cancel", fmt("token %d had no callback when ares_cancel (called from a callback) returned", id));
+  } else if (t.cbmode == 3 && w->ch) {
+    // the application reacts to a completion by changing its server list (from inside the callback)
+    w->W("reentrant_set_servers");
+    w->do_setservers(t.cbarg);
   }
   w->cb_depth--;
 }
@@ -1558,9 +1562,10 @@ void World::do_setservers(int variant)
         ref_last_fail_us[i] = 0;
       }
   }
-  in_lib = true;
+  bool was_in_lib = in_lib; // the call may come from inside a completion callback
+  in_lib          = true;
   int rc = ares_set_servers_ports_csv(ch, csv.c_str());
-  in_lib = false;
+  in_lib = was_in_lib;
   log(fmt("set_servers -> %d", rc));
   if (rc != ARES_SUCCESS) {
     memcpy(cfg_order, old_order, sizeof old_order);
